@@ -29,6 +29,7 @@ REQUIRED = {"saves_checked": 200, "readbacks_compared": 200, "device_writes_logg
 NODE = 9
 PDO_NOT_VALID, RTR_NOT_ALLOWED = 1 << 31, 1 << 30
 MAPPABLE = {(gen.TYPE_INDEX_BASE + dt, 0): R.width(dt) for dt in list(R.NUMERIC) + [R.BOOLEAN]}
+BLOB_OBJECTS = [(gen.TYPE_INDEX_BASE + R.OCTET_STRING, 0), (gen.TYPE_INDEX_BASE + R.VISIBLE_STRING, 0)]   # mapped with a length of their own
 
 
 def plan(tier, seed):
@@ -49,6 +50,13 @@ def random_mapping(rng, n=None):
                 break
         out.append((gen.TYPE_INDEX_BASE + dt, 0, w))
         total += w
+    if out and rng.random() < 0.15:
+        # one object of a string type, mapped with 16 .. 48 bits (e.g. a short identifier carried in a PDO)
+        w = rng.choice([16, 24, 48])
+        if total - out[-1][2] + w <= 64:
+            total += w - out[-1][2]
+            idx, sub = rng.choice(BLOB_OBJECTS)
+            out[-1] = (idx, sub, w)
     return out
 
 
@@ -162,7 +170,7 @@ def run_case(ctx, c):
     node = canopen.RemoteNode(NODE, od)
     net.add_node(node)
     node.sdo.RESPONSE_TIMEOUT = 0.05
-    dev = PdoDevice(MAPPABLE)
+    dev = PdoDevice({**MAPPABLE, **{k: 64 for k in BLOB_OBJECTS}})
     # the device starts enabled with a different mapping (for source 'device' it holds the configuration itself)
     if c["source"] == "device":
         word = c["cob"] | (0 if c["enabled"] else PDO_NOT_VALID) | (0 if c["rtr"] else RTR_NOT_ALLOWED)
@@ -174,7 +182,13 @@ def run_case(ctx, c):
     else:
         dev.add_pdo(com, mp, c["old_cob"], 255, tuple(c["subs"]), c["old_mapping"], 1, 2, 3)
     bus.actor_station("refserver", ServerActor(dev, 0x600 + NODE, 0x580 + NODE))
-    pmap = (node.rpdo if c["kind"] == "rpdo" else node.tpdo)[c["number"]]
+    try:
+        pmap = (node.rpdo if c["kind"] == "rpdo" else node.tpdo)[c["number"]]
+    except KeyError as exc:
+        ctx.case(("map-missing", c["kind"]), nontrivial=True)
+        ctx.violation("pdo-map-missing", f"the dictionary describes {c['kind']} {c['number']} but node.{c['kind']}[{c['number']}] raises {exc!r}", c)
+        bus.close()
+        return
     sig = (c["kind"], "pcs" if c["number"] <= 4 else "high", "ext" if c["cob"] > 0x7FF else "std", c["enabled"], c["rtr"],
            "event" if c["trans"] >= 254 else "sync" if c["trans"] <= 240 else "rtr/reserved", len(c["mapping"]), tuple(c["subs"][2:]), c["source"],
            c.get("map_as_array"), c.get("failed_first_save"))
@@ -184,7 +198,8 @@ def run_case(ctx, c):
         if c["source"] == "programmatic":
             pmap.clear()
             for idx, sub, ln in c["mapping"]:
-                pmap.add_variable(idx, sub, ln)
+                # (objects mapped with their whole length are added the usual way: without naming the length)
+                pmap.add_variable(idx, sub, None if ln == MAPPABLE.get((idx, sub)) and (idx + ln) % 2 else ln)
             pmap.cob_id, pmap.enabled, pmap.rtr_allowed, pmap.trans_type = c["cob"], c["enabled"], c["rtr"], c["trans"]
             pmap.inhibit_time, pmap.event_timer, pmap.sync_start_value = c["inhibit"], c["event"], c["sync_start"]
         elif c["source"] == "device":
